@@ -276,3 +276,66 @@ func TestReplay(t *testing.T) { vk.Replay(t) }
 var subFuzz = vk.Register(&vk.Sub[Case]{Name: "files_fuzz", Gen: gen, Check: check})
 
 func FuzzSub_files_fuzz(f *testing.F) { vk.RunFuzz(f, subFuzz) }
+
+// ---------------------------------------------------------------------------------------
+// corpus: the repository's own GenBank files, read by poly and by the harness's independent
+// reader (differential). Records the independent reader does not accept (CRLF files, duplicate
+// qualifier keys, the flat-file header) are outside its domain and are skipped and counted.
+
+type CorpusCase struct {
+	File  string `json:"file"`
+	Index int    `json:"record"`
+}
+
+func corpusRecords(file string) []string {
+	b, err := os.ReadFile(filepath.Join("/repo/data", file))
+	if err != nil {
+		return nil
+	}
+	var out []string
+	for _, r := range strings.SplitAfter(string(b), "\n//\n") {
+		if strings.TrimSpace(r) != "" {
+			out = append(out, r)
+		}
+	}
+	return out
+}
+
+func checkCorpus(c CorpusCase) error {
+	recs := corpusRecords(c.File)
+	if c.Index >= len(recs) {
+		return vk.Harnessf("%s has no record %d", c.File, c.Index)
+	}
+	text := recs[c.Index]
+	ind, err := gbk.Read(text)
+	if err != nil {
+		vk.Count("record outside the independent reader's domain (skipped)", 1)
+		return nil
+	}
+	got, perr := parse("Parse("+c.File+")", func() []poly.Sequence { return []poly.Sequence{genbank.Parse([]byte(text))} })
+	if perr != nil {
+		return perr
+	}
+	want, _ := gbk.ExpectedOf(got[0])
+	// the independent reader's result is the reference; poly's result is rendered the same way and compared
+	if err := gbk.CompareExpected(fmt.Sprintf("%s record %d: independent reader vs genbank.Parse", c.File, c.Index), ind, want, nil); err != nil {
+		return err
+	}
+	vk.Count("record read identically by poly and the independent reader", 1)
+	return nil
+}
+
+var subCorpus = vk.Register(&vk.Sub[CorpusCase]{Name: "corpus", Check: checkCorpus})
+
+func TestSub_corpus(t *testing.T) {
+	files := []string{"puc19.gbk", "sample.gbk", "t4_intron.gb", "phix174.gb", "pichia_chr1_head.gb", "puc19_snapgene.gb", "long_comment.seq", "multiGbk_test.seq", "flatGbk_test.seq"}
+	vk.RunEnum(t, subCorpus, "every record of the nine GenBank files under /repo/data", true, func(yield func(CorpusCase) bool) {
+		for _, f := range files {
+			for i := range corpusRecords(f) {
+				if !yield(CorpusCase{File: f, Index: i}) {
+					return
+				}
+			}
+		}
+	})
+}
